@@ -183,7 +183,7 @@ def one_op(p, inner=False):
                                     st.sampled_from(["roundoff", "roundoff", "tiny_e", "tiny_e", "huge_xy", "huger_xy", "tiny_xy", "inch_feed",
                                                      "tiny_merge", "huge_merge", "tiny_z", "leave_far", "tiny_base", "tiny_base", "spelled_merge",
                                                      "twin_merge"]),
-                                    st.integers(1, 9), st.integers(0, 8)))]
+                                    st.integers(1, 999), st.integers(0, 8)))]
         if p.get("again", 2):
             # the previous move command once more, character for character (a second relative step; a null move in absolute mode)
             parts += [(p.get("again", 2), st.just(("again",)))]
@@ -255,6 +255,11 @@ def config(draw, p):
                                                          "", "^\\s*$", ".*", "^\\s*(now)?\\s*$"])),
                 "action": draw(st.sampled_from(["enable_exclusion", "disable_exclusion"])),
             })
+        if draw(st.integers(0, 3)) == 0:
+            # entries of one command interleaved with another command's (a hand-edited list; order within a command matters)
+            table = [{"command": "ExcludeRegion", "parameterPattern": "^\\s*(disable|off)(\\s|$)", "action": "disable_exclusion"},
+                     {"command": "Other", "parameterPattern": None, "action": draw(st.sampled_from(["enable_exclusion", "disable_exclusion"]))},
+                     {"command": "ExcludeRegion", "parameterPattern": "^\\s*(enable|on)(\\s|$)", "action": "enable_exclusion"}] + table[:1]
         cfg["at"] = table
     return cfg
 
@@ -599,12 +604,12 @@ class Renderer(object):  # pylint: disable=too-many-instance-attributes
                 self.g("G90")
         elif what == "tiny_e":
             if self.e_ok() and not self.retracted:
-                tiny = n * 10.0 ** -(5 + m % 6)
+                tiny = n * 10.0 ** -(7 + m % 6)
                 self.g("G1" + " E" + fmt((pr.e + tiny) / pr.u, 15))
         elif what == "tiny_base":
             # re-base E so that the next retraction / recovery of the cycle ends at a tiny value
             if self.e_ok():
-                tiny = n * 10.0 ** -(5 + m % 6)
+                tiny = n * 10.0 ** -(7 + m % 6)
                 base = tiny if self.retracted else self.delta + tiny
                 self.g("G92 E" + fmt(base / pr.u, 15))
         elif what in ("huge_xy", "huger_xy", "leave_far") and pr.abs:
@@ -613,14 +618,14 @@ class Renderer(object):  # pylint: disable=too-many-instance-attributes
                 scale = 1e6
             self.g("G1 X%s Y%s" % (fmt(n * scale / pr.u + 0.5, 3), fmt((m + 1) * scale * 3 / pr.u, 3)), precheck=True)
         elif what == "tiny_xy" and pr.abs:
-            self.g("G1 X%s Y%s" % (fmt(n * 1e-7, 12), fmt((m + 1) * 1e-9, 12)), precheck=True)
+            self.g("G1 X%s Y%s" % (fmt(n * 1e-9, 12), fmt((m + 1) * 1e-9, 12)), precheck=True)
         elif what == "tiny_z" and pr.abs:
-            self.g("G1 Z%s" % fmt(n * 1e-6 + 0.2 * (m % 2), 9))
+            self.g("G1 Z%s" % fmt(n * 1e-8 + 0.2 * (m % 2), 10))
         elif what == "inch_feed":
-            self.g("G1 F%s" % fmt(n * 10.0 ** -(3 + m % 5), 9))
+            self.g("G1 F%s" % fmt(n * 10.0 ** -(5 + m % 5), 11))
         elif what == "tiny_merge":
             # (n == 9: exactly zero - a legal value that careless formatting code drops)
-            self.g(["M204 S%s", "M205 X%s", "M73 P%s"][m % 3] % (fmt(n * 1e-7, 9) if n != 9 else "0"))
+            self.g(["M204 S%s", "M205 X%s", "M73 P%s"][m % 3] % (fmt(n * 1e-9, 11) if n % 10 != 9 else "0"))
         elif what == "spelled_merge":
             # legal spellings a careless number pattern mis-reads: no leading zero, trailing point, explicit plus, leading zeros
             self.g(["M204 S%s", "M205 X%s", "M73 P%s", "M204 T%s P%s"][m % 4].replace("%s P%s", "%s P" + ["5.", ".5"][n % 2])
